@@ -33,6 +33,7 @@ type Engine struct {
 	qctr           int
 	sentinels      map[*ssa.Global]int64
 	storedGlobals  map[*ssa.Global][]string // global -> functions (non-init) that store to it
+	constMapKeys   map[*ssa.Global][]*ssa.Const // integer-keyed map globals built once in init and only ever looked up
 	namedTypes     []types.Type
 	repo           string
 	loadSecs       float64
@@ -63,7 +64,7 @@ func NewEngine(repo string, specDir string) (*Engine, error) {
 	prog.Build()
 	e := &Engine{prog: prog, pkgs: pkgs, specs: NewSpecs(), fnByKey: map[string]*ssa.Function{},
 		strIDs: map[string]int64{}, funcIDs: map[*ssa.Function]int64{}, globalIDs: map[*ssa.Global]int64{},
-		typeTags: map[string]int64{}, sentinels: map[*ssa.Global]int64{}, storedGlobals: map[*ssa.Global][]string{},
+		typeTags: map[string]int64{}, sentinels: map[*ssa.Global]int64{}, storedGlobals: map[*ssa.Global][]string{}, constMapKeys: map[*ssa.Global][]*ssa.Const{},
 		repo: repo, globalStoreLog: map[string][]string{}}
 	for fn := range ssautil.AllFunctions(prog) {
 		if fn.Synthetic != "" && !strings.HasPrefix(fn.Synthetic, "package initializer") {
@@ -161,6 +162,7 @@ func (e *Engine) scanGlobals() {
 			}
 		}
 	}
+	e.scanConstMaps()
 	// standard-library sentinels get ids 1..999, module-private ones 1000..1999
 	id, mid, lid := int64(0), int64(999), int64(1499)
 	for _, g := range errGlobals {
@@ -692,4 +694,118 @@ var _ = token.NoPos
 
 func hasQuantText(script string) bool {
 	return strings.Contains(script, "(forall ") || strings.Contains(script, "(exists ")
+}
+
+// scanConstMaps finds package-level maps with integer keys that are built by
+// one composite literal in the package initialiser (MakeMap, MapUpdate with
+// constant keys, one Store) and whose every other use in the whole program is
+// a load that feeds map look-ups only. For those, the key set is a constant
+// and `_, ok := m[k]` is decided exactly (step.go, *ssa.Lookup).
+func (e *Engine) scanConstMaps() {
+	cand := map[*ssa.Global][]*ssa.Const{}
+	for _, p := range e.prog.AllPackages() {
+		if !strings.HasPrefix(p.Pkg.Path(), modulePath) {
+			continue
+		}
+		initFn := p.Func("init")
+		if initFn == nil {
+			continue
+		}
+		for _, b := range initFn.Blocks {
+			for _, in := range b.Instrs {
+				s, ok := in.(*ssa.Store)
+				if !ok {
+					continue
+				}
+				g, ok := s.Addr.(*ssa.Global)
+				if !ok || len(e.storedGlobals[g]) > 0 {
+					continue
+				}
+				mt, ok := derefType(g.Type()).Underlying().(*types.Map)
+				if !ok {
+					continue
+				}
+				if bt, ok := mt.Key().Underlying().(*types.Basic); !ok || bt.Info()&types.IsInteger == 0 {
+					continue
+				}
+				mm, ok := s.Val.(*ssa.MakeMap)
+				if !ok || mm.Referrers() == nil {
+					continue
+				}
+				if _, dup := cand[g]; dup {
+					cand[g] = nil
+					continue
+				}
+				var keys []*ssa.Const
+				good := true
+				for _, r := range *mm.Referrers() {
+					switch u := r.(type) {
+					case *ssa.MapUpdate:
+						k, isC := u.Key.(*ssa.Const)
+						if u.Map != ssa.Value(mm) || !isC || u.Value == ssa.Value(mm) {
+							good = false
+						}
+						keys = append(keys, k)
+					case *ssa.Store:
+						if u != s {
+							good = false
+						}
+					case *ssa.DebugRef:
+					default:
+						good = false
+					}
+				}
+				if good {
+					cand[g] = keys
+				} else {
+					cand[g] = nil
+				}
+			}
+		}
+	}
+	// every other use anywhere: *g loaded, the load used by look-ups only
+	for fn := range ssautil.AllFunctions(e.prog) {
+		for _, b := range fn.Blocks {
+			for _, in := range b.Instrs {
+				for _, op := range in.Operands(nil) {
+					g, ok := (*op).(*ssa.Global)
+					if !ok {
+						continue
+					}
+					if _, isCand := cand[g]; !isCand {
+						continue
+					}
+					switch u := in.(type) {
+					case *ssa.Store:
+						if u.Addr != ssa.Value(g) || u.Val == ssa.Value(g) {
+							cand[g] = nil
+						}
+					case *ssa.UnOp:
+						if u.Op != token.MUL || u.Referrers() == nil {
+							cand[g] = nil
+							continue
+						}
+						for _, r := range *u.Referrers() {
+							switch l := r.(type) {
+							case *ssa.Lookup:
+								if l.X != ssa.Value(u) || l.Index == ssa.Value(u) {
+									cand[g] = nil
+								}
+							case *ssa.DebugRef:
+							default:
+								cand[g] = nil
+							}
+						}
+					default:
+						cand[g] = nil
+					}
+				}
+			}
+		}
+	}
+	for g, ks := range cand {
+		if ks != nil {
+			e.constMapKeys[g] = ks
+		}
+	}
 }
